@@ -198,6 +198,13 @@ func edgeElems() []Elem {
 				out = append(out, e)
 			}
 		}
+		// the first template with one value per field class, under every Salt
+		for salt := 0; salt < saltRange; salt++ {
+			e := ts[0]
+			e.Salt, e.Same = salt, 1
+			e.ID = idTab[salt%len(idTab)]
+			out = append(out, e)
+		}
 		for ti := 0; ti < 2 && ts[ti].Mask != 0; ti++ { // the rich shapes (a kind without a boundary shape has one)
 			for i, id := range idTab {
 				e := ts[ti]
